@@ -343,6 +343,24 @@ func (association *Association) Delete(values ...interface{}) error {
 							}
 						}
 					}
+				} else if rel.Type == schema.BelongsTo {
+					// the relation is not loaded, but the record's foreign key may name a deleted target
+					primaryValues := make([]interface{}, len(rel.FieldSchema.PrimaryFields))
+					for idx, field := range rel.FieldSchema.PrimaryFields {
+						for _, ref := range rel.References {
+							if ref.PrimaryKey == field && !ref.OwnPrimaryKey {
+								primaryValues[idx], _ = ref.ForeignKey.ValueOf(association.DB.Statement.Context, data)
+							}
+						}
+					}
+
+					if _, ok := relValuesMap[utils.ToStringKey(primaryValues...)]; ok {
+						for _, ref := range rel.References {
+							if !ref.OwnPrimaryKey && ref.PrimaryValue == "" {
+								association.Error = ref.ForeignKey.Set(association.DB.Statement.Context, data, reflect.Zero(ref.ForeignKey.FieldType).Interface())
+							}
+						}
+					}
 				}
 			}
 
